@@ -168,32 +168,36 @@ def wokenOf (polls : List (Nat × Resp)) : List (Nat × Resp) :=
 def stillParked (parked : List Nat) (polls : List (Nat × Resp)) : List Nat :=
   parked.filter (fun w => !(wokenOf polls).any (fun p => p.1 == w))
 
+/-- `set` / `clear` / `check` / `watch` with awaiting watchers around: the operation itself,
+then the polls of the tasks it wakes.  Third component: see `pstepFull`. -/
+def pupdate (s : P) (o : Op) : P × Out × List Ev :=
+  match notified s.h o with
+  | none => (⟨(step s.h o).1, s.parked⟩, ⟨.plain (step s.h o).2, []⟩, [(o, (step s.h o).2)])
+  | some i =>
+    (⟨(repoll i (step s.h o).1 s.parked).1, stillParked s.parked (repoll i (step s.h o).1 s.parked).2⟩,
+      ⟨.plain (step s.h o).2, wokenOf (repoll i (step s.h o).1 s.parked).2⟩,
+      (o, (step s.h o).2) :: (repoll i (step s.h o).1 s.parked).2.map (fun p => (Op.next p.1, p.2)))
+
 /-- One item.  The third component is the list of `step` operations the item amounted to, in
 order (the item's own operation, then the polls of woken tasks): the parked layer adds no
 behaviour of its own, it only decides *when* `next` happens. -/
 def pstepFull (s : P) : Item → P × Out × List Ev
   | .await w =>
     if w ∈ s.parked then (s, ⟨.busy, []⟩, [])
+    else if (step s.h (.next w)).2 = .pending then
+      (⟨(step s.h (.next w)).1, w :: s.parked⟩, ⟨.parked, []⟩, [(.next w, (step s.h (.next w)).2)])
     else
-      let r := step s.h (.next w)
-      if r.2 = .pending then (⟨r.1, w :: s.parked⟩, ⟨.parked, []⟩, [(.next w, r.2)])
-      else (⟨r.1, s.parked⟩, ⟨.plain r.2, []⟩, [(.next w, r.2)])
+      (⟨(step s.h (.next w)).1, s.parked⟩, ⟨.plain (step s.h (.next w)).2, []⟩,
+        [(.next w, (step s.h (.next w)).2)])
   | .op (.next w) =>
     if w ∈ s.parked then (s, ⟨.busy, []⟩, [])
     else
-      let r := step s.h (.next w)
-      (⟨r.1, s.parked⟩, ⟨.plain r.2, []⟩, [(.next w, r.2)])
+      (⟨(step s.h (.next w)).1, s.parked⟩, ⟨.plain (step s.h (.next w)).2, []⟩,
+        [(.next w, (step s.h (.next w)).2)])
   | .op (.drop w) =>
-    let r := step s.h (.drop w)
-    (⟨r.1, s.parked.filter (fun x => x != w)⟩, ⟨.plain r.2, []⟩, [(.drop w, r.2)])
-  | .op o =>
-    let r := step s.h o
-    match notified s.h o with
-    | none => (⟨r.1, s.parked⟩, ⟨.plain r.2, []⟩, [(o, r.2)])
-    | some i =>
-      let rp := repoll i r.1 s.parked
-      (⟨rp.1, stillParked s.parked rp.2⟩, ⟨.plain r.2, wokenOf rp.2⟩,
-        (o, r.2) :: rp.2.map (fun p => (Op.next p.1, p.2)))
+    (⟨(step s.h (.drop w)).1, s.parked.filter (fun x => x != w)⟩, ⟨.plain (step s.h (.drop w)).2, []⟩,
+      [(.drop w, (step s.h (.drop w)).2)])
+  | .op o => pupdate s o
 
 def pstep (s : P) (it : Item) : P × Out := ((pstepFull s it).1, (pstepFull s it).2.1)
 
@@ -210,5 +214,9 @@ first). -/
 def pevents (s : P) : List Item → List Ev
   | [] => []
   | it :: its => (pstepFull s it).2.2 ++ pevents (pstep s it).1 its
+
+/-- The sequential history (operations of `step`, oldest first) that a history with awaiting
+watchers amounts to, from the initial state. -/
+def pops (items : List Item) : List Op := (pevents pinit items).map (·.1)
 
 end Health
